@@ -231,9 +231,12 @@ class ProgGen:
             return self.goal(vars_)
         r = rnd.random()
         if self.k.ctrl and r < 0.45:
-            kind = rnd.choice(['disj', 'disj', 'ite', 'itee', 'neg'])
+            kind = rnd.choice(['disj', 'disj', 'ite', 'itee', 'neg', 'negneg'])
             if kind == 'neg':
                 return ('neg', self.cond(vars_, size - 1))
+            if kind == 'negneg':
+                # `\\+ \\+ G`: succeeds once iff G has an answer, binds nothing
+                return ('neg', ('neg', self.cond(vars_, size - 1)))
             ls = rnd.randint(1, size - 1)
             if kind == 'itee':
                 cs = rnd.randint(1, max(1, ls - 1)) if ls > 1 else 1
@@ -339,7 +342,31 @@ class ProgGen:
         else:
             self.recursive = False
         self.gen_rules()
+        if self.rnd.random() < 0.25:
+            self.role_family()
         return self.clauses
+
+    def role_family(self):
+        """one predicate, three or four clauses, in which the same variable NAME plays different roles from
+        clause to clause: plain once-occurring head argument (aliased to the parameter), nested in a head
+        structure, repeated in the head, body-only - every clause activation must work on its own variables"""
+        rnd = self.rnd
+        facts = [p for p in self.preds if p[0].startswith('f') and p[1] == 1 and self.nsol.get(p, 0) >= 1]
+        leaf = (lambda v: ('call', facts[0][0], [v])) if facts else (lambda v: ('call', '=', [v, ('A', rnd.choice(ATOMS))]))
+        X, Y = ('V', 'X'), ('V', 'Y')
+        roles = {
+            'alias': lambda: ([X, Y], leaf(X)),                                         # V_X = arg1
+            'nested': lambda: ([('F', 'f', [X]), Y], leaf(X)),
+            'repeated': lambda: ([X, X], leaf(Y)),
+            'bodyonly': lambda: ([('A', rnd.choice(ATOMS)), Y], ('conj', leaf(X), ('call', '=', [Y, ('F', 'g', [X])]))),
+            'swapped': lambda: ([Y, X], leaf(X)),
+        }
+        order = [rnd.choice(list(roles)) for _ in range(rnd.randint(3, 4))]
+        for r in order:
+            head, body = roles[r]()
+            self.clauses.append(('role', head, body, True))
+        self.preds.append(('role', 2))
+        self.roles = True
 
     def queries(self, n=3):
         rnd = self.rnd
@@ -351,6 +378,9 @@ class ProgGen:
             qs.append((name, [mterm_query(rnd, nv) for _ in range(arity)]))
         if getattr(self, 'alias', False):
             qs.append(('al0', [[Sym('v'), 0]]))
+        if getattr(self, 'roles', False):
+            qs.append(('role', [[Sym('v'), 0], [Sym('v'), 1]]))
+            qs.append(('role', [mterm_query(rnd, 2), mterm_query(rnd, 2)]))
         if self.recursive:
             lst = lambda xs: mlist(xs)
             a = [Sym('a'), 'a']; b = [Sym('a'), 'b']; c = [Sym('a'), 'c']
